@@ -203,7 +203,7 @@ theorem inv_cancelElem {s : Sh} {ts : List Th} (h : Inv s ts) (x : Nat) : Inv (c
 theorem inv_exec1 {s : Sh} {ts : List Th} (h : Inv s ts) (i : Nat) : Inv (exec1 s i) ts := by
   unfold exec1
   cases hg : regGet s.reg i with
-  | none => exact inv_eff_core h [] (HSub.refl _) rfl (by simp) rfl rfl rfl rfl (Nat.le_refl _)
+  | none => exact inv_eff_core h [] (HSub.refl _) rfl (by simp) rfl (fun _ hy => hy) (fun _ _ hy => hy) rfl (Nat.le_refl _)
   | some x =>
     have h1 := inv_cancelElem h x
     exact inv_eff_revoke h1 i x (.replaced i x) hg (Or.inr rfl) rfl rfl rfl rfl rfl rfl rfl
@@ -212,11 +212,19 @@ theorem inv_cancelId {s : Sh} {ts : List Th} (h : Inv s ts) (i : Nat) : Inv (can
   unfold cancelId
   cases hg : regGet s.reg i with
   | none =>
-    exact inv_eff_core h [.cancelRes i false none] (HSub.refl _) rfl (by simp [Ev.inert]) rfl rfl rfl rfl
-      (Nat.le_refl _)
+    exact inv_eff_core h [.cancelRes i false none] (HSub.refl _) rfl (by simp [Ev.inert]) rfl (fun _ hy => hy)
+      (fun _ _ hy => hy) rfl (Nat.le_refl _)
   | some x =>
     have h1 := inv_cancelElem h x
-    exact inv_eff_revoke h1 i x (.cancelRes i true (some x)) hg (Or.inl rfl) rfl rfl rfl rfl rfl rfl rfl
+    by_cases hp : x ∈ s.closed
+    · -- dropped or cancelled before: the registration goes, nothing else is claimed
+      have hd : decide (x ∉ s.closed) = false := by simp [hp]
+      simp only [hd]
+      exact inv_eff_core h1 [.cancelRes i false (some x)] (HSub.refl _) rfl (by simp [Ev.inert]) rfl (fun _ hy => hy)
+        (fun j y hy => (regGet_regDel_some hy).2) rfl (Nat.le_refl _)
+    · have hd : decide (x ∉ s.closed) = true := by simp [hp]
+      simp only [hd]
+      exact inv_eff_revoke h1 i x (.cancelRes i true (some x)) hg (Or.inl rfl) rfl rfl rfl rfl rfl rfl rfl
 
 /-- After `Queue.Add` (with the registration of the new element under `reg`, if it was accepted). -/
 theorem inv_add {s s' : Sh} {ts : List Th} (h : Inv s ts) (due : Nat) (id : Option Nat) (kind : Kind) (tag : Nat)
@@ -226,26 +234,29 @@ theorem inv_add {s s' : Sh} {ts : List Th} (h : Inv s ts) (due : Nat) (id : Opti
     (hr : s'.reg = match (add s due id kind tag).2 with
                    | .ok x => regAfter s.reg id x
                    | _ => s.reg) : Inv s' ts := by
-  rcases add_cases s due id kind tag with ⟨_, h1, hno⟩ | ⟨_, hok, h2, new, h1, hcase⟩
+  rcases add_cases s due id kind tag with ⟨_, h1, hno⟩ | ⟨_, hok, h2, new, cl, h1, hcase⟩
   · rw [h1] at hh hl hn hcl hf hk
     have hr' : s'.reg = s.reg := by
       rw [hr]; cases hres : (add s due id kind tag).2 with
       | ok x => exact absurd hres (hno x)
       | nil => rfl
       | panic => rfl
-    exact inv_eff_core h [] (by rw [hh]; exact HSub.refl _) (by simpa using hl) (by simp) hn hcl hr' hf (by omega)
+    exact inv_eff_core h [] (by rw [hh]; exact HSub.refl _) (by simpa using hl) (by simp) hn
+      (by rw [hcl]; exact fun _ hy => hy) (by rw [hr']; exact fun _ _ hy => hy) hf (by omega)
   · rw [h1] at hh hl hn hcl hf hk
     rw [hok] at hr
     simp only [signal_heap, signal_log, signal_next, signal_closed, signal_flags, signal_clock] at hh hl hn hcl hf hk
-    rcases hcase with ⟨rfl, hp⟩ | ⟨d, rfl, hp, _⟩
-    · refine inv_eff_addOk h due id kind tag [] ?_ (by simp) (by simpa using hl) hn hcl hr hf hk
+    rcases hcase with ⟨rfl, rfl, hp⟩ | ⟨d, rfl, rfl, hp, _⟩
+    · refine inv_eff_addOk h due id kind tag [] ?_ (by simp) (by simpa using hl) hn
+        (by rw [hcl]; exact fun _ hy => hy) hr hf hk
       rw [hh]; intro p; rw [hp.countP_eq]; exact Nat.le_refl _
-    · refine inv_eff_addOk h due id kind tag [.dropSize d.serial] ?_ (by simp [Ev.inert]) (by simpa using hl) hn hcl hr hf hk
+    · refine inv_eff_addOk h due id kind tag [.dropSize d.serial] ?_ (by simp [Ev.inert]) (by simpa using hl) hn
+        (by rw [hcl]; exact fun y hy => List.mem_cons_of_mem _ hy) hr hf hk
       rw [hh]; exact HSub.of_perm_cons hp
 
 theorem add_reg (s : Sh) (due : Nat) (id : Option Nat) (kind : Kind) (tag : Nat) :
     (add s due id kind tag).1.reg = s.reg := by
-  rcases add_cases s due id kind tag with ⟨_, h1, _⟩ | ⟨_, _, h2, new, h1, _⟩
+  rcases add_cases s due id kind tag with ⟨_, h1, _⟩ | ⟨_, _, h2, new, cl, h1, _⟩
   · rw [h1]
   · rw [h1]; simp
 
@@ -260,7 +271,7 @@ theorem inv_exec2 {s : Sh} {ts : List Th} (h : Inv s ts) (i due : Nat) (kind : K
     | ok x =>
       refine inv_add h due (some i) kind tag ?_ ?_ ?_ ?_ ?_ ?_ ?_ <;> simp only [e1, e2, regAfter]
       -- the registered serial is the one `add` returned
-      rcases add_cases s due (some i) kind tag with ⟨_, _, hno⟩ | ⟨_, hok, h2, new, h1, _⟩
+      rcases add_cases s due (some i) kind tag with ⟨_, _, hno⟩ | ⟨_, hok, h2, new, cl, h1, _⟩
       · exact absurd e2 (hno x)
       · rw [e2] at hok; cases hok
         rw [e1] at h1; rw [h1]; simp
@@ -275,19 +286,22 @@ theorem inv_sd3 {s : Sh} {ts : List Th} (h : Inv s ts) : Inv (sd3 s) ts := by
   unfold sd3
   split
   · exact inv_eff_core h (s.heap.map (fun e => Ev.dropSD e.serial)) (HSub.nil _) rfl
-      (by intro ev hev; simp only [List.mem_map] at hev; obtain ⟨e, _, rfl⟩ := hev; rfl) rfl rfl rfl rfl (Nat.le_refl _)
-  · exact inv_eff_core h [] (HSub.refl _) rfl (by simp) rfl rfl rfl rfl (Nat.le_refl _)
+      (by intro ev hev; simp only [List.mem_map] at hev; obtain ⟨e, _, rfl⟩ := hev; rfl) rfl
+      (fun y hy => List.mem_append_right _ hy) (fun _ _ hy => hy) rfl (Nat.le_refl _)
+  · exact inv_eff_core h [] (HSub.refl _) rfl (by simp) rfl (fun _ hy => hy) (fun _ _ hy => hy) rfl (Nat.le_refl _)
 
 /-- A change of fields the invariant does not read. -/
 theorem inv_same {s s' : Sh} {ts : List Th} (h : Inv s ts) (hh : s'.heap = s.heap) (hl : s'.log = s.log)
     (hn : s'.next = s.next) (hcl : s'.closed = s.closed) (hr : s'.reg = s.reg) (hf : s'.flags = s.flags)
     (hk : s.clock ≤ s'.clock) : Inv s' ts :=
-  inv_eff_core h [] (by rw [hh]; exact HSub.refl _) (by simpa using hl) (by simp) hn hcl hr hf hk
+  inv_eff_core h [] (by rw [hh]; exact HSub.refl _) (by simpa using hl) (by simp) hn
+    (by rw [hcl]; exact fun _ hy => hy) (by rw [hr]; exact fun _ _ hy => hy) hf hk
 
 theorem inv_log1 {s s' : Sh} {ts : List Th} (h : Inv s ts) (ev : Ev) (hev : ev.inert = true) (hh : s'.heap = s.heap)
     (hl : s'.log = ev :: s.log) (hn : s'.next = s.next) (hcl : s'.closed = s.closed) (hr : s'.reg = s.reg)
     (hf : s'.flags = s.flags) (hk : s.clock ≤ s'.clock) : Inv s' ts :=
-  inv_eff_core h [ev] (by rw [hh]; exact HSub.refl _) (by simpa using hl) (by simpa using hev) hn hcl hr hf hk
+  inv_eff_core h [ev] (by rw [hh]; exact HSub.refl _) (by simpa using hl) (by simpa using hev) hn
+    (by rw [hcl]; exact fun _ hy => hy) (by rw [hr]; exact fun _ _ hy => hy) hf hk
 
 /-! ## every transition -/
 
@@ -312,7 +326,9 @@ theorem inv_tr {s s' : Sh} {l r : List Th} {t t' : Th} (h : Inv s (l ++ t :: r))
     exact inv_same (noElem_move h (fun _ => rfl) (fun _ => rfl) trivial) rfl rfl rfl rfl rfl rfl (Nat.le_refl _)
   | hkGo hr => exact inv_move h (fun _ => Nat.le_refl _) (fun _ => Nat.le_refl _) (fun hk => hk)
   | selSdCancel hc hf =>
-    exact inv_log1 (noElem_move h (fun _ => rfl) (fun _ => rfl) trivial) _ rfl rfl rfl rfl rfl rfl rfl (Nat.le_refl _)
+    rename_i e
+    exact inv_eff_core (noElem_move h (fun _ => rfl) (fun _ => rfl) trivial) [.dropSD e.serial] (HSub.refl _) rfl
+      (by simp [Ev.inert]) rfl (fun y hy => List.mem_cons_of_mem _ hy) (fun _ _ hy => hy) rfl (Nat.le_refl _)
   | selSdIgnore hc hf hi =>
     exact inv_move h (fun _ => Nat.le_refl _) (fun _ => Nat.le_refl _) (fun hk => ⟨hk, Or.inr hi⟩)
   | selSd hc hf hi => exact inv_move h (fun _ => Nat.le_refl _) (fun _ => Nat.le_refl _) (fun hk => hk)
